@@ -21,8 +21,9 @@ from harness import ops
 
 MODEL = ['Gen/GenConsts.v', 'Model/Base.v', 'Model/Tables.v', 'Model/Txn.v', 'Model/Handlers.v', 'Model/Candidates.v',
          'Spec/CandSpec.v']
-DEPS = {'C13': MODEL + ['Proofs/C13.v'],
-        'C03': MODEL + ['Proofs/C03.v', 'Proofs/C03r.v', 'Proofs/C03e.v', 'Proofs/C03s.v'],
+DEPS = {'C13': MODEL + ['Proofs/C13.v', 'Model/Parse.v', 'Model/Json.v', 'Gen/GenSchemas.v', 'Spec/Fields.v', 'Model/DecodeQ.v',
+                        'Proofs/C13q.v'],
+        'C03': MODEL + ['Proofs/C03.v', 'Proofs/C03r.v', 'Proofs/C03e.v', 'Proofs/C03s.v', 'Proofs/C03c.v'],
         'C02': MODEL + ['Proofs/C02.v', 'Proofs/C02m.v', 'Proofs/C02c.v']}
 BUDGET = {'quick': {'C13': (40, 25), 'C03': (64, 25), 'C02': (40, 20)},
           'thorough': {'C13': (200, 40), 'C03': (240, 30), 'C02': (160, 25)}}
@@ -186,6 +187,22 @@ def run(pid, tier, out):
         corr_error = 'model did not build'
     st = dict(cand.LAST_STATS)
     spec_diffs = list(cand.SPEC_DIFFS)
+    # C13: the front half of the listing handler (query string -> filters) against Model/DecodeQ.v: the REAL handler is
+    # called on generated query strings and the filters it passes on are captured
+    dq = None
+    if pid == 'C13':
+        if common.vo_fresh('Model/DecodeQ.v'):
+            try:
+                from harness import decodeq
+                n_c, n_b, first, dstats = decodeq.run(seed + 13, 600 if tier == 'quick' else 8000)
+                dq = {'query_strings': n_c, 'disagreements': n_b, 'outcomes': dstats}
+                if n_b:
+                    corr_error = (corr_error or '') + ' query decoding: Model/DecodeQ.v disagrees with list_resource_providers on %d of %d ' \
+                        'query strings: %s' % (n_b, n_c, ' '.join(first.split())[:600])
+            except Exception as exc:      # noqa
+                corr_error = (corr_error or '') + ' query decoding stream: %s' % str(exc)[-500:]
+        else:
+            corr_error = (corr_error or '') + ' Model/DecodeQ.v did not build'
     proof_broken = (not ps['ok']) or bool(hyg) or not ok_tr
     tie_broken = bool(bad) or corr_error is not None
 
@@ -269,7 +286,7 @@ def run(pid, tier, out):
                        n_states, n_queries),
            'samples': [{'http': d['http'], 'class': d['class']} for d in spec_diffs[:3]] or [{'stats': st.get('codes')}],
            'traces_validated_against_impl': st.get('cases', 0) - len(bad) if not corr_error else 0,
-           'model_impl_disagreements': len(bad), 'correspondence_error': corr_error, 'run_statistics': st,
+           'model_impl_disagreements': len(bad), 'correspondence_error': corr_error, 'run_statistics': st, 'query_decoding': dq,
            'claims_attempted': stats['claims'], 'candidates_checked': stats['candidates'], 'oracle_hits': len(oracle_hits)}
     common.write_evidence(pid, tier, 'proof', cov, t.s(), len(out.violations),
                           assumptions=['SQLite as the database', 'states within the bounded scope stated by the property'])
